@@ -198,7 +198,7 @@ func encodeRecs(ms ...proto.Message) []byte {
 // for odd states, prefixes and corruptions of snapshot files.
 func TestRoundTripAndHostileLoader(t *testing.T) {
 	run := vf.Cur()
-	sub := run.Sub("round-trip-and-hostile-loader", "generated stores (0..2000 silences with multiple matcher sets, all matcher types, UTF-8 names, annotations, pending/active/expired; log entries with firing/resolved hashes and receiver data of every kind; silences in the old single-matcher-list encoding; states that arrived by gossip with odd content such as a regex that does not compile) -> Snapshot -> fresh instance: every unexpired record equal field by field and equal Mutes verdicts, and a file the writer produced always loads (including single records of 30 kB - 600 kB: a log entry for a group of 3000-60000 alerts, a silence with a huge comment and hundreds of matchers); then every record-boundary prefix, every prefix cutting a record, and random byte corruptions (flip, insert, delete, length-prefix tampering) are presented to the loader under a watchdog: never a panic, and a prefix that cuts a record must be rejected with an error instead of yielding a silently shorter state; non-trivial = store with >=2 records; distinct by (seed, variant)", 40)
+	sub := run.Sub("round-trip-and-hostile-loader", "generated stores (0..2000 silences with multiple matcher sets, all matcher types, UTF-8 names, annotations, pending/active/expired; log entries with firing/resolved hashes and receiver data of every kind; silences in the old single-matcher-list encoding; states that arrived by gossip with odd content such as a regex that does not compile; locally written silences and log entries superseded by a peer's newer version before the snapshot) -> Snapshot -> fresh instance: every unexpired record equal field by field and equal Mutes verdicts, and a file the writer produced always loads (including single records of 30 kB - 600 kB: a log entry for a group of 3000-60000 alerts, a silence with a huge comment and hundreds of matchers); then every record-boundary prefix, every prefix cutting a record, and random byte corruptions (flip, insert, delete, length-prefix tampering) are presented to the loader under a watchdog: never a panic, and a prefix that cuts a record must be rejected with an error instead of yielding a silently shorter state; non-trivial = store with >=2 records; distinct by (seed, variant)", 40)
 	n := run.N(60, 4000)
 	vf.Parallel(t, n, 16, func(t *testing.T, i int) {
 		r := sub.Rand(i)
@@ -226,6 +226,20 @@ func TestRoundTripAndHostileLoader(t *testing.T) {
 			bad := silh.NewSilence(fmt.Sprintf("badre-%d", i), [][]model.Matcher{{{Name: "alertname", Op: "=~", Value: "a("}}}, now, now.Add(time.Hour), "regex does not compile")
 			bad.UpdatedAt = timestamppb.New(now)
 			extra = append(extra, &pb.MeshSilence{Silence: bad, ExpiresAt: timestamppb.New(now.Add(retention))})
+		}
+		// a peer's newer version of a locally created silence (extended, other comment) arrives before the snapshot
+		if all, _, err := s.Query(context.Background()); err == nil {
+			for _, cur := range all {
+				if r.Intn(4) != 0 || cur.EndsAt.AsTime().Before(now) {
+					continue
+				}
+				nv := proto.Clone(cur).(*pb.Silence)
+				nv.Comment = "extended on a peer"
+				nv.EndsAt = timestamppb.New(cur.EndsAt.AsTime().Add(17 * time.Minute))
+				nv.UpdatedAt = timestamppb.New(time.Now().Add(time.Second))
+				extra = append(extra, &pb.MeshSilence{Silence: nv, ExpiresAt: timestamppb.New(nv.EndsAt.AsTime().Add(retention))})
+				sub.Count("silences_superseded_by_a_peer_before_the_snapshot", 1)
+			}
 		}
 		for _, e := range extra {
 			if err := s.Merge(encodeRecs(e)); err != nil {
@@ -292,6 +306,27 @@ func TestRoundTripAndHostileLoader(t *testing.T) {
 			t.Fatal(err)
 		}
 		gks := addEntries(l, 0, size)
+		// some of the locally written entries are superseded by a peer's newer entry for the same key (other
+		// alert hashes, other receiver data) before the snapshot is taken: the snapshot holds what Query returns
+		superseded := 0
+		for k, gk := range gks {
+			if r.Intn(3) != 0 {
+				continue
+			}
+			peer := &nfpb.MeshEntry{Entry: &nfpb.Entry{Receiver: rc0, GroupKey: []byte(gk), Timestamp: timestamppb.New(time.Now().Add(time.Second)),
+				FiringAlerts: []uint64{uint64(1000 + k)}, ResolvedAlerts: []uint64{uint64(k), uint64(k + 1)},
+				ReceiverData: map[string]*nfpb.ReceiverDataValue{"s": {Value: &nfpb.ReceiverDataValue_StrVal{StrVal: fmt.Sprintf("peer%d", k)}}}},
+				ExpiresAt: timestamppb.New(time.Now().Add(retention))}
+			if err := l.Merge(encodeRecs(peer)); err != nil {
+				sub.Violation("merge-of-a-well-formed-peer-record-failed", map[string]any{"component": "nflog", "err": err.Error()})
+			}
+			if es, err := l.Query(nflog.QGroupKey(gk), nflog.QReceiver(rc0)); err != nil || len(es) != 1 || len(es[0].FiringAlerts) != 1 || es[0].FiringAlerts[0] != uint64(1000+k) {
+				sub.Inconclusive("a peer's newer entry did not supersede the local one")
+				return
+			}
+			superseded++
+		}
+		sub.Count("log_entries_superseded_by_a_peer_before_the_snapshot", int64(superseded))
 		var lsnap bytes.Buffer
 		l.Snapshot(&lsnap)
 		l2, _, err := newNflog("", lsnap.Bytes())
